@@ -40,3 +40,32 @@ class ZeroTransOfInfected(ss.Connector):
             if isinstance(d, ss.Infection):
                 d.rel_trans[self.sim.people.auids] = 1.0
                 d.rel_trans[d.infectious.uids] = 0.0
+
+
+class Book(ss.Analyzer):
+    """C10 bookkeeping probe (module level: it travels with pickled / copied sims)."""
+    def __init__(self, **kw):
+        super().__init__(**kw); self.rows = []; self.problems = []
+    def step(self):
+        sim = self.sim; ppl = sim.people; ti = sim.t.ti
+        n = int(ppl.uid.len_used)
+        if not np.array_equal(np.asarray(ppl.uid.raw[:n]), np.arange(n)):
+            self.problems.append((ti, 'uid array is not 0..n-1'))
+        for st in ppl._states.values():
+            if st.len_used != n or len(st.raw) < n:
+                self.problems.append((ti, f'state {st.name} has len_used={st.len_used}, len(raw)={len(st.raw)} but n_uid={n}'))
+        for arr in (ppl.slot, ppl.parent):
+            if arr.len_used != n: self.problems.append((ti, f'{arr.name} has len_used={arr.len_used} but n_uid={n}'))
+        # every agent array held by a module (found through the module, not through the people's registry) covers the whole id space
+        for mod in sim.modules:
+            for k, v in mod.__dict__.items():
+                if isinstance(v, ss.Arr) and (v.len_used != n or len(v.raw) < n):
+                    self.problems.append((ti, f'{mod.name}.{k} has len_used={v.len_used}, len(raw)={len(v.raw)} but {n} uids have been issued'))
+        au = np.asarray(ppl.auids)
+        if len(np.unique(au)) != len(au): self.problems.append((ti, 'duplicate active uids'))
+        if len(au) and au.max() >= n: self.problems.append((ti, 'active uid outside the id space'))
+        overdue = au[(ppl.alive.raw[au]) & (ppl.ti_dead.raw[au] < ti)]
+        if len(overdue):
+            self.problems.append((ti, f'death requested at step {int(ppl.ti_dead.raw[overdue[0]])} for agent {int(overdue[0])} has still not been carried out after the death-resolution phase of step {int(ti)}'))
+        self.rows.append(dict(ti=int(ti), n_uid=n, n_active=len(au), alive_active=int(np.count_nonzero(ppl.alive.raw[au])),
+                              late=int(np.count_nonzero((~ppl.alive.raw[au]) & (ppl.ti_dead.raw[au] < ti)))))
